@@ -36,7 +36,8 @@ TRUSTED_BASE = [
     "hand models lean/PdfVerif/Model/CIDFont.lean and Model/TrueTypeCmap.lean of cmapdb/pdffont/pdfdevice functions "
     "(correspondence is sampling)",
     "tools/translate/gen_c07.py regenerates IDENTITY_ENCODER, the four identity CMap names of CMapDB.get_cmap, the "
-    "DW/DW2 defaults, the TrueType collections tuple and the writing-mode argument of get_unicode_map from the source",
+    "DW/DW2 defaults, the TrueType collections tuple, the writing-mode argument of get_unicode_map, the popall "
+    "keywords of CMapParser.do_keyword and the separator of the cidcoding f-string from the source",
     "Python twin of the Lean spec in tools/harness/props/c07.py (compared with the Lean spec on every case)",
     "PDFCIDFont.__init__ glue (cidcoding, DW/DW2 validation, choice of W/DW vs W2/DW2 by writing mode) is hand-modelled "
     "(cidCoding, dwValue, dw2Value, cidCharWidth, cidCharDisp) and tie-checked on ill-typed / ill-formed dictionaries",
@@ -97,6 +98,8 @@ STATEMENT_STATUS: Dict[str, str] = {
                            "numbers, else [880 -1000]; W/DW irrelevant",
     "writing_mode_selects_arrays": "proved: the writing mode alone decides which arrays are read; horizontal disp = 0",
     "cidcoding_spec": "proved: cidcoding = Registry-Ordering with surrounding white space (str.strip) removed",
+    "popall_keywords_tied": "proved: the model's operand-discarding keywords = the popall branches of do_keyword, "
+                            "regenerated from cmapdb.py",
     "cidcoding_unknown": "proved: missing / ill-typed Registry and Ordering read as unknown-unknown",
     "cidchar_map": "proved (handler level): cid <code> pairs -> cid maps to the UTF-16BE text of the string",
     "cidrange_map": "proved (handler level): <lo> <hi> cid -> cid+i maps to the text of code lo+i (carry form), no "
